@@ -113,6 +113,18 @@ FOCUS[11] = ("- THIS ROUND'S FOCUS: error paths and validation. At least one of 
              "affected for some inputs, or where the refusal happens but leaves something behind.")
 
 
+FOCUS[12] = ("- THIS ROUND'S FOCUS: the shape of the data and the environment. At least one of your two changes must only show for particular "
+             "(but valid, inside the quantifier) DATA SHAPES or ENVIRONMENTS, not for particular API calls: files with very few rows or a single "
+             "row; gaps (market holidays, missing days) at particular places - first day, last day, the day of a rebalance, a month end; assets "
+             "whose bars begin or end in the middle of the run; files of different lengths; extreme but legal magnitudes (sub-cent prices, "
+             "prices in the millions, quantities or cash balances above 2**31 or 2**53, weights of 1e-9); one asset vs thirty; one-day runs vs "
+             "runs of several years (thresholds: a branch taken only above N rows / N assets / N rebalances / N history entries; bounded "
+             "caches; batch boundaries); values that collide (two assets with the same price, two fills at the same instant, equal weights, "
+             "equal dates in two files); and the environment: the machine's time zone and locale, pandas / numpy options and versions' "
+             "defaults, environment variables, the working directory, dict / set / os.listdir ordering, the interpreter's hash seed, what "
+             "was imported or configured earlier in the process (logging, warnings filters, matplotlib backend).")
+
+
 def rnd_of(i):
     m = re.search(r'-r(\d+)$', i)
     return int(m.group(1)) if m else 1
